@@ -39,6 +39,9 @@ type HandlerView interface {
 	// Done reports a finished handler: bytes consumed, bytes written without
 	// error, and whether it ended without any Read/Write error.
 	Done(token int) (done bool, consumed, written int64, clean bool)
+	// MaxRead is the largest number of body bytes one Read call of the handler
+	// can return (0: the handler never reads).
+	MaxRead(token int) int64
 	// RespByte is response body byte number off of the handler for token;
 	// RespEqual compares a whole block.
 	RespByte(token int, off int64) byte
@@ -129,6 +132,13 @@ type Model struct {
 	wu0Recv    int64
 	wu0Sent    int64
 	dataRecv   int64
+
+	// largest amount by which the session WINDOW_UPDATEs received so far ever
+	// exceeded the DATA bytes sent so far (0: never), and where it was seen
+	overRepl     int64
+	overReplSeq  int
+	overReplWU   int64
+	overReplSent int64
 
 	// our SETTINGS_INITIAL_WINDOW_SIZE: the value the server certainly has
 	// applied (settled) and the ones it may or may not have applied yet.
@@ -758,9 +768,10 @@ func (m *Model) recvWU(ev *Event) {
 	d := int64(ev.Delta)
 	if ev.Stream == 0 {
 		m.wu0Recv += d
-		if m.wu0Recv > m.dataSent {
-			m.viol(ev.Seq, "inbound:session-window-over-replenished",
-				"session WINDOW_UPDATEs received sum to %d but only %d DATA bytes were ever sent", m.wu0Recv, m.dataSent)
+		// more given back than was ever sent: reported by Finish (overReplenished),
+		// which names the shape once the whole connection is known
+		if x := m.wu0Recv - m.dataSent; x > m.overRepl {
+			m.overRepl, m.overReplSeq, m.overReplWU, m.overReplSent = x, ev.Seq, m.wu0Recv, m.dataSent
 		}
 		return
 	}
@@ -1037,6 +1048,7 @@ func (m *Model) Finish(f EndFacts) {
 			m.viol(-1, sig, "stream %d: handler consumed %d bytes, but everything after byte %d had to be refused (%s)", s.ID, c, s.DeliverCap, s.CapWhy)
 		}
 	}
+	m.overReplenished(f)
 	if !f.Healthy || !f.AllDone {
 		return
 	}
@@ -1097,4 +1109,59 @@ func (m *Model) Finish(f EndFacts) {
 			m.viol(-1, "stream-rules:streams-left-after-close", "%d streams still in the server's table after serve returned", f.OpenStreams)
 		}
 	}
+}
+
+// overReplenished: "replenishes them by consumed bytes" - the session window
+// must never be given back more than the server received. Two observations:
+// the client's own account (WINDOW_UPDATE(0) sum against DATA bytes sent, taken
+// whenever a WINDOW_UPDATE arrived) and, through the verif accessor, the
+// server's session receive window after serve returned: it starts at 65536, is
+// debited for every DATA byte received and credited for every WINDOW_UPDATE(0)
+// queued, so a value above 65536 means the server credited bytes it never got.
+// The second one does not depend on when the client sent its later DATA (DATA
+// sent after the excess was granted hides it from the first account).
+//
+// Shape read-racing-stream-reset: the excess is at most one handler Read for
+// every upload stream that was reset (by either side) while its handler had
+// begun to read - the account of a stream that is torn down under a reading
+// handler. Anything larger, or without such a stream, keeps the plain signature.
+func (m *Model) overReplenished(f EndFacts) {
+	excess := m.overRepl
+	what := ""
+	if excess > 0 {
+		what = fmt.Sprintf("session WINDOW_UPDATEs received sum to %d (log #%d) but only %d DATA bytes were ever sent", m.overReplWU, m.overReplSeq, m.overReplSent)
+	}
+	if f.HookPresent && f.RecvWindow-DefaultWindow > 0 {
+		if x := f.RecvWindow - DefaultWindow; x > excess {
+			excess = x
+		}
+		if what != "" {
+			what += "; "
+		}
+		what += fmt.Sprintf("after the connection the server's session receive window is %d, above the initial %d although every credit has to match received DATA (client account: %d bytes sent, WINDOW_UPDATE(0) sum %d)",
+			f.RecvWindow, int64(DefaultWindow), m.dataSent, m.wu0Recv)
+	}
+	if excess <= 0 {
+		return
+	}
+	var bound int64
+	var ids []string
+	for _, s := range m.order {
+		if s.Sent == 0 || !(s.ClientRst || s.SrvRst || s.SrvRstMaybe) || f.Invoked(s.Token) == 0 || f.Consumed(s.Token) == 0 {
+			continue
+		}
+		bound += m.H.MaxRead(s.Token)
+		by := "client"
+		if !s.ClientRst {
+			by = "server"
+		}
+		ids = append(ids, fmt.Sprintf("%d (reset by the %s, handler consumed %d of %d, reads of <= %d)", s.ID, by, f.Consumed(s.Token), s.Sent, m.H.MaxRead(s.Token)))
+	}
+	if bound > 0 && excess <= bound {
+		m.Obs["over_replenished_read_racing_stream_reset"]++
+		m.viol(m.overReplSeq, "inbound:session-window-over-replenished:read-racing-stream-reset",
+			"%s: %d byte(s) too many, no more than one handler Read for each upload stream reset while its handler was reading: stream %v", what, excess, ids)
+		return
+	}
+	m.viol(m.overReplSeq, "inbound:session-window-over-replenished", "%s: %d byte(s) too many", what, excess)
 }
